@@ -27,8 +27,10 @@ Section Dict.
   Context {V : Type}.
   Fixpoint d_get (d : list (string * V)) (k : string) : option V :=
     match d with [] => None | (k', v) :: r => if String.eqb k k' then Some v else d_get r k end.
+  (* d.pop(k) / del d[k]: keys are unique in a Python dict; the model removes every entry with that key, which is
+     the same thing on a list with unique keys *)
   Fixpoint d_del (d : list (string * V)) (k : string) : list (string * V) :=
-    match d with [] => [] | (k', v) :: r => if String.eqb k k' then r else (k', v) :: d_del r k end.
+    match d with [] => [] | (k', v) :: r => if String.eqb k k' then d_del r k else (k', v) :: d_del r k end.
   (* d[k] = v : in place when the key exists, appended otherwise *)
   Fixpoint d_set (d : list (string * V)) (k : string) (v : V) : list (string * V) :=
     match d with [] => [(k, v)] | (k', v') :: r => if String.eqb k k' then (k', v) :: r else (k', v') :: d_set r k v end.
@@ -174,91 +176,101 @@ Definition usd_wrap (st : tstate) (o : obj) : obj * tstate :=
   | KPlain => (o, st)
   end.
 
-(* The loop `for key, value in input.items()`, written as a nested fixpoint over the entries so that the recursion
-   on sub-tensordicts is structural.  (In the custom-__setattr__ path with inplace=True the code reads the local
-   variable local_out before assigning it: UnboundLocalError, or AttributeError when an earlier entry bound it to a
-   dict; both are the class EAttrError here.) *)
+(* One leaf entry `key: tensor` of the loop `for key, value in input.items()`.
+   Result: state afterwards, and either the value stored in the swap (Some out; out may be None in the
+   custom-__setattr__ path, where torch's swap_tensor returns the None held by the slot) or the exception class.
+   (In the custom path with inplace=True the code reads the local variable local_out before assigning it:
+   UnboundLocalError, or AttributeError when an earlier entry bound it to a dict; both are EAttrError here.) *)
+Definition leaf_step (cfg : tmcfg) (m : Z) (key : string) (x : obj) (st : tstate) : tstate * (option obj + exn) :=
+  let inplace := match c_inplace cfg with Some b => b | None => false end in
+  match h_get (t_heap st) m with
+  | None => (st, inr EOther)
+  | Some node =>
+      if m_custom node then
+        if inplace then (st, inr EAttrError)
+        else
+          let '(x', st1) := if c_usd cfg then usd_wrap st x else (x, st) in
+          match swap_tensor node key x' with
+          | SwErr e => (st1, inr e)
+          | SwOk node' orig => (st_heap st1 (h_set (t_heap st1) m node'), inl orig)
+          end
+      else
+        let '(x', st1) := if c_usd cfg then usd_wrap st x else (x, st) in
+        let '(node', out, st2) := set_tensor_dict node key x' inplace st1 in
+        let st3 := st_heap st2 (h_set (t_heap st2) m node') in
+        match out with
+        | None => (st3, inr EKeyError)
+        | Some o => (st3, inl (Some o))
+        end
+  end.
+
+Definition push (cfg : tmcfg) (acc : list (string * pent)) (key : string) (v : pent) : list (string * pent) :=
+  if c_return_swap cfg then acc ++ [(key, v)] else acc.
+
+(* The loop over the entries, with the recursive call on sub-tensordicts passed as [rec] (to_mod below instantiates
+   it with itself; the recursion is structural on the tensordict).  [phase_leaves] only matters under
+   use_state_dict, where flatten_keys(".").unflatten_keys(".") lists the leaves first and then the non-empty
+   sub-tensordicts: the entries are then walked twice. *)
+Definition tm_go (rec : ptd -> Z -> tstate -> memo_t -> tmres) (cfg : tmcfg) (m : Z) (custom : bool)
+                 (subs : list (string * option Z)) :=
+  fix go (phase_leaves : bool) (l : list (string * pent)) (st : tstate) (memo : memo_t)
+         (acc : list (string * pent)) {struct l} : tstate * memo_t * list (string * pent) * option exn :=
+    match l with
+    | [] => (st, memo, acc, None)
+    | (key, PLeaf (Some x)) :: r =>
+        if c_usd cfg && negb phase_leaves then go phase_leaves r st memo acc else
+        match leaf_step cfg m key x st with
+        | (st', inl out) => go phase_leaves r st' memo (push cfg acc key (PLeaf out))
+        | (st', inr e) => (st', memo, acc, Some e)
+        end
+    | (key, PLeaf None) :: r =>
+        (* a None value is not a tensor: treated as a sub-module entry *)
+        if c_usd cfg then go phase_leaves r st memo acc else
+        if custom then (st, memo, acc, Some ETypeError)            (* module._modules.get(key) -> weakref.ref(None) *)
+        else if d_mem subs key then (st, memo, acc, Some EAttrError)
+        else (st, memo, acc, Some EKeyError)
+    | (key, PSub t') :: r =>
+        if c_usd cfg && (phase_leaves || ptd_empty t') then go phase_leaves r st memo acc else
+        match d_get subs key with
+        | None => (st, memo, acc, Some (if custom then ETypeError else EKeyError))
+        | Some None => (st, memo, acc, Some ETypeError)            (* weakref.ref(None) *)
+        | Some (Some child) =>
+            match z_get memo child with
+            | Some sw => go phase_leaves r st memo (push cfg acc key (PSub sw))
+            | None =>
+                match rec t' child st memo with
+                | TmErr st' e => (st', memo, acc, Some e)
+                | TmOk st' memo' sw => go phase_leaves r st' memo' (push cfg acc key (PSub sw))
+                end
+            end
+        end
+    end.
+
+(* _to_module: the module registers its (still empty) swap dict in the memo before the loop (memo[ref(module)] =
+   _swap), so a module is processed at most once per call of the public to_module when return_swap=True. *)
 Fixpoint to_mod (cfg : tmcfg) (t : ptd) (m : Z) (st : tstate) (memo : memo_t) {struct t} : tmres :=
   match h_get (t_heap st) m with
   | None => TmErr st EOther                                   (* dangling module id: outside the model's domain *)
   | Some node0 =>
-    let custom := m_custom node0 in
     if c_usd cfg && (match c_inplace cfg with Some _ => true | None => false end) then TmErr st EOther else
-    let inplace := match c_inplace cfg with Some b => b | None => false end in
+    let memo0 := if c_return_swap cfg then z_set memo m (PTD []) else memo in
     match t with PTD ents =>
-      (* use_state_dict: flatten_keys(".").unflatten_keys(".") lists the leaves first, then the non-empty sub-tds *)
-      let go :=
-        (fix go (phase_leaves : bool) (l : list (string * pent)) (st : tstate) (memo : memo_t)
-                (acc : list (string * pent)) {struct l}
-           : tstate * memo_t * list (string * pent) * option exn :=
-           match l with
-           | [] => (st, memo, acc, None)
-           | (key, PLeaf (Some x)) :: r =>
-               if c_usd cfg && negb phase_leaves then go phase_leaves r st memo acc else
-               match h_get (t_heap st) m with
-               | None => (st, memo, acc, Some EOther)
-               | Some node =>
-                 if custom then
-                   if inplace then (st, memo, acc, Some EAttrError)   (* new_val = local_out: unbound / a dict *)
-                   else
-                     let '(x', st1) := if c_usd cfg then usd_wrap st x else (x, st) in
-                     match swap_tensor node key x' with
-                     | SwErr e => (st1, memo, acc, Some e)
-                     | SwOk node' orig =>
-                         let st2 := st_heap st1 (h_set (t_heap st1) m node') in
-                         go phase_leaves r st2 memo (if c_return_swap cfg then acc ++ [(key, PLeaf orig)] else acc)
-                     end
-                 else
-                   let '(x', st1) := if c_usd cfg then usd_wrap st x else (x, st) in
-                   let '(node', out, st2) := set_tensor_dict node key x' inplace st1 in
-                   let st3 := st_heap st2 (h_set (t_heap st2) m node') in
-                   match out with
-                   | None => (st3, memo, acc, Some EKeyError)
-                   | Some o => go phase_leaves r st3 memo (if c_return_swap cfg then acc ++ [(key, PLeaf (Some o))] else acc)
-                   end
-               end
-           | (key, PLeaf None) :: r =>
-               (* a None value is not a tensor: treated as a sub-module entry *)
-               if c_usd cfg then go phase_leaves r st memo acc else
-               if custom then (st, memo, acc, Some ETypeError)          (* weakref.ref(None) *)
-               else if d_mem (m_subs node0) key then (st, memo, acc, Some EAttrError)
-               else (st, memo, acc, Some EKeyError)
-           | (key, PSub t') :: r =>
-               if c_usd cfg && (phase_leaves || ptd_empty t') then go phase_leaves r st memo acc else
-               match d_get (m_subs node0) key with
-               | None => (st, memo, acc, Some (if custom then ETypeError else EKeyError))
-               | Some None => (st, memo, acc, Some ETypeError)          (* weakref.ref(None) *)
-               | Some (Some child) =>
-                   match z_get memo child with
-                   | Some sw => go phase_leaves r st memo (if c_return_swap cfg then acc ++ [(key, PSub sw)] else acc)
-                   | None =>
-                       match to_mod cfg t' child st memo with
-                       | TmErr st' e => (st', memo, acc, Some e)
-                       | TmOk st' memo' sw =>
-                           let memo'' := if c_return_swap cfg then z_set memo' child sw else memo' in
-                           go phase_leaves r st' memo'' (if c_return_swap cfg then acc ++ [(key, PSub sw)] else acc)
-                       end
-                   end
-               end
-           end) in
+      let go := tm_go (to_mod cfg) cfg m (m_custom node0) (m_subs node0) in
+      let fin (r : tstate * memo_t * list (string * pent) * option exn) : tmres :=
+        match r with
+        | (st2, memo2, acc2, Some e) => TmErr st2 e
+        | (st2, memo2, acc2, None) => TmOk st2 (if c_return_swap cfg then z_set memo2 m (PTD acc2) else memo2) (PTD acc2)
+        end in
       if c_usd cfg then
-        match go true ents st memo [] with
+        match go true ents st memo0 [] with
         | (st1, memo1, acc1, Some e) => TmErr st1 e
-        | (st1, memo1, acc1, None) =>
-            match go false ents st1 memo1 acc1 with
-            | (st2, memo2, acc2, Some e) => TmErr st2 e
-            | (st2, memo2, acc2, None) => TmOk st2 memo2 (PTD acc2)
-            end
+        | (st1, memo1, acc1, None) => fin (go false ents st1 memo1 acc1)
         end
-      else
-        match go true ents st memo [] with
-        | (st1, memo1, acc1, Some e) => TmErr st1 e
-        | (st1, memo1, acc1, None) => TmOk st1 memo1 (PTD acc1)
-        end
+      else fin (go true ents st memo0 [])
     end
   end.
 
-(* the public to_module: a fresh memo per call; the root module is registered in the memo like every other *)
+(* the public to_module: a fresh memo per call *)
 Definition to_module (cfg : tmcfg) (t : ptd) (m : Z) (st : tstate) : tmres := to_mod cfg t m st [].
 
 (* ------------------------------------------------------------------ _quick_set (closure in _to_module) *)
@@ -330,11 +342,11 @@ Definition reverse_to_module (b : block) (swap : ptd) (st : tstate) : tstate * o
     end.
 
 (* __exit__(exc) after the body finished with outcome [oc] *)
-Definition exit_block (b : block) (swap : ptd) (oc : outcome) (st : tstate) : tstate * outcome :=
+Definition exit_block_gen (fixed : bool) (b : block) (swap : ptd) (oc : outcome) (st : tstate) : tstate * outcome :=
   match oc with
   | ORaise e =>
       if is_Exception e then
-        if fixed_D6 then let '(st', r) := reverse_to_module b swap st in (st', match r with OOk => oc | _ => r end)
+        if fixed then let '(st', r) := reverse_to_module b swap st in (st', match r with OOk => oc | _ => r end)
         else (st, oc)                                          (* return False: nothing is inverted *)
       else
         let '(st', r) := reverse_to_module b swap st in
@@ -343,7 +355,8 @@ Definition exit_block (b : block) (swap : ptd) (oc : outcome) (st : tstate) : ts
   | OOk => reverse_to_module b swap st
   end.
 
-Fixpoint run_blocks (x : excspec) (bs : list block) (lvl : nat) (st : tstate) : tstate * list event * outcome :=
+Fixpoint run_blocks_gen (fixed : bool) (x : excspec) (bs : list block) (lvl : nat) (st : tstate)
+  : tstate * list event * outcome :=
   match bs with
   | [] => (st, [], OOk)
   | b :: rest =>
@@ -355,7 +368,7 @@ Fixpoint run_blocks (x : excspec) (bs : list block) (lvl : nat) (st : tstate) : 
         match (if b_swap_dest b then quick_set swap0 (PTD []) else QOk swap0) with
         | QErr e => (st1, [mkEv EvEnter lvl (ORaise e) st1], ORaise EOther)
         | QOk swap =>
-          let '(st2, evs, oc_inner) := run_blocks x rest (S lvl) st1 in
+          let '(st2, evs, oc_inner) := run_blocks_gen fixed x rest (S lvl) st1 in
           let oc := match oc_inner with OOk => body_raise x lvl | _ => oc_inner end in
           let ev1 := mkEv EvEnter lvl OOk st1 in
           if b_manual b then
@@ -368,11 +381,15 @@ Fixpoint run_blocks (x : excspec) (bs : list block) (lvl : nat) (st : tstate) : 
                 end
             end
           else
-            let '(st3, oc') := exit_block b swap oc st2 in
+            let '(st3, oc') := exit_block_gen fixed b swap oc st2 in
             (st3, ev1 :: evs ++ [mkEv EvExit lvl oc' st3], oc')
         end
       end
   end.
+
+(* the code as it is *)
+Definition exit_block := exit_block_gen fixed_D6.
+Definition run_blocks := run_blocks_gen fixed_D6.
 
 Definition run_program (x : excspec) (bs : list block) (st : tstate) : list event :=
   let '(_, evs, _) := run_blocks x bs 0 st in mkEv EvInit 0 OOk st :: evs.
